@@ -26,7 +26,7 @@ from . import c03
 
 PROPERTY = "C16"
 LEVEL = "exploration"
-QUICK_RUNS = 6000
+QUICK_RUNS = 14000
 THOROUGH_RUNS = 200_000
 QUICK_BUDGET_S = 100
 BATCH = 40
